@@ -1129,4 +1129,116 @@ Definition go_client_Conn_h_AUTHENTICATE (conn_cfg_Sasl : option go_sasl_Client)
           let out : list bytes := out ++ t4 in
           Ok (conn_saslRemainingData, out))))).
 
+(* Conn.h_STNICK — client/state_handlers.go *)
+Definition go_client_Conn_h_STNICK (conn_st : option ST) (line_Args : list bytes) (line_Nick : bytes) : res (option ST) :=
+  t1 <- elem_at line_Args 0 ;;
+  p1 <- (match conn_st with None => Panic | Some s_ => let '(s_, r_) := go_state_Tracker_ReNick trk s_ line_Nick t1 in Ok (Some s_, r_) end) ;;
+  let '(conn_st, t2) := p1 in
+  Ok conn_st.
+
+(* Conn.h_PART — client/state_handlers.go *)
+Definition go_client_Conn_h_PART (conn_st : option ST) (line_Args : list bytes) (line_Nick : bytes) : res (option ST) :=
+  t1 <- elem_at line_Args 0 ;;
+  p1 <- (match conn_st with None => Panic | Some s_ => Ok (Some (go_state_Tracker_Dissociate trk s_ t1 line_Nick), tt) end) ;;
+  let '(conn_st, t2) := p1 in
+  Ok conn_st.
+
+(* Conn.h_KICK — client/state_handlers.go *)
+Definition go_client_Conn_h_KICK (conn_st : option ST) (line_Args : list bytes) : res (option ST) :=
+  t1 <- go_client_Line_argslen line_Args 1 ;;
+  if negb t1 then
+    Ok conn_st
+  else
+    (t2 <- elem_at line_Args 0 ;;
+    t3 <- elem_at line_Args 1 ;;
+    p1 <- (match conn_st with None => Panic | Some s_ => Ok (Some (go_state_Tracker_Dissociate trk s_ t2 t3), tt) end) ;;
+    let '(conn_st, t4) := p1 in
+    Ok conn_st).
+
+(* Conn.h_QUIT — client/state_handlers.go *)
+Definition go_client_Conn_h_QUIT (conn_st : option ST) (line_Nick : bytes) : res (option ST) :=
+  p1 <- (match conn_st with None => Panic | Some s_ => let '(s_, r_) := go_state_Tracker_DelNick trk s_ line_Nick in Ok (Some s_, r_) end) ;;
+  let '(conn_st, t1) := p1 in
+  Ok conn_st.
+
+(* Conn.h_TOPIC — client/state_handlers.go *)
+Definition go_client_Conn_h_TOPIC (conn_st : option ST) (line_Args : list bytes) : res (option ST) :=
+  t1 <- go_client_Line_argslen line_Args 1 ;;
+  if negb t1 then
+    Ok conn_st
+  else
+    (t2 <- elem_at line_Args 0 ;;
+    p1 <- (match conn_st with None => Panic | Some s_ => let '(s_, r_) := go_state_Tracker_GetChannel trk s_ t2 in Ok (Some s_, r_) end) ;;
+    let '(conn_st, t3) := p1 in
+    let ch : option go_state_Channel := t3 in
+    if go_is_some ch then
+      (t4 <- elem_at line_Args 0 ;;
+      t5 <- elem_at line_Args 1 ;;
+      p2 <- (match conn_st with None => Panic | Some s_ => let '(s_, r_) := go_state_Tracker_Topic trk s_ t4 t5 in Ok (Some s_, r_) end) ;;
+      let '(conn_st, t6) := p2 in
+      Ok conn_st)
+    else
+      (t7 <- elem_at line_Args 0 ;;
+      Ok conn_st)).
+
+(* Conn.h_324 — client/state_handlers.go *)
+Definition go_client_Conn_h_324 (conn_st : option ST) (line_Args : list bytes) : res (option ST) :=
+  t1 <- go_client_Line_argslen line_Args 2 ;;
+  if negb t1 then
+    Ok conn_st
+  else
+    (t2 <- elem_at line_Args 1 ;;
+    p1 <- (match conn_st with None => Panic | Some s_ => let '(s_, r_) := go_state_Tracker_GetChannel trk s_ t2 in Ok (Some s_, r_) end) ;;
+    let '(conn_st, t3) := p1 in
+    let ch : option go_state_Channel := t3 in
+    if go_is_some ch then
+      (t4 <- elem_at line_Args 1 ;;
+      t5 <- elem_at line_Args 2 ;;
+      t6 <- elems_from line_Args 3 ;;
+      p2 <- (match conn_st with None => Panic | Some s_ => let '(s_, r_) := go_state_Tracker_ChannelModes trk s_ t4 t5 t6 in Ok (Some s_, r_) end) ;;
+      let '(conn_st, t7) := p2 in
+      Ok conn_st)
+    else
+      (t8 <- elem_at line_Args 1 ;;
+      Ok conn_st)).
+
+(* Conn.h_332 — client/state_handlers.go *)
+Definition go_client_Conn_h_332 (conn_st : option ST) (line_Args : list bytes) : res (option ST) :=
+  t1 <- go_client_Line_argslen line_Args 2 ;;
+  if negb t1 then
+    Ok conn_st
+  else
+    (t2 <- elem_at line_Args 1 ;;
+    p1 <- (match conn_st with None => Panic | Some s_ => let '(s_, r_) := go_state_Tracker_GetChannel trk s_ t2 in Ok (Some s_, r_) end) ;;
+    let '(conn_st, t3) := p1 in
+    let ch : option go_state_Channel := t3 in
+    if go_is_some ch then
+      (t4 <- elem_at line_Args 1 ;;
+      t5 <- elem_at line_Args 2 ;;
+      p2 <- (match conn_st with None => Panic | Some s_ => let '(s_, r_) := go_state_Tracker_Topic trk s_ t4 t5 in Ok (Some s_, r_) end) ;;
+      let '(conn_st, t6) := p2 in
+      Ok conn_st)
+    else
+      (t7 <- elem_at line_Args 1 ;;
+      Ok conn_st)).
+
+(* Conn.h_671 — client/state_handlers.go *)
+Definition go_client_Conn_h_671 (conn_st : option ST) (line_Args : list bytes) : res (option ST) :=
+  t1 <- go_client_Line_argslen line_Args 1 ;;
+  if negb t1 then
+    Ok conn_st
+  else
+    (t2 <- elem_at line_Args 1 ;;
+    p1 <- (match conn_st with None => Panic | Some s_ => let '(s_, r_) := go_state_Tracker_GetNick trk s_ t2 in Ok (Some s_, r_) end) ;;
+    let '(conn_st, t3) := p1 in
+    let nk : option go_state_Nick := t3 in
+    if go_is_some nk then
+      (t4 <- go_state_Nick_get_Nick nk ;;
+      p2 <- (match conn_st with None => Panic | Some s_ => let '(s_, r_) := go_state_Tracker_NickModes trk s_ t4 [43; 122]%N in Ok (Some s_, r_) end) ;;
+      let '(conn_st, t5) := p2 in
+      Ok conn_st)
+    else
+      (t6 <- elem_at line_Args 1 ;;
+      Ok conn_st)).
+
 End WithTracker.
